@@ -238,6 +238,8 @@ def sub_time_series(case):
         start = float(real.T[0])
     elif timed and st_sel == "other":
         start = float(real.T[0]) - 12.5
+    elif timed and st_sel == "zero":
+        start = 0.0   # a clock that starts at zero: the given start time is exactly 0
     x_exp = (real.T - start if start else real.T) if timed else np.arange(n, dtype=float)
     try:
         fig, axarr = plt.subplots(3)
@@ -384,7 +386,7 @@ def _st_plot(min_n, max_n):
     return st.integers(min_n, max_n).flatmap(lambda n: st.fixed_dictionaries({
         "traj": trajgen.st_traj(n, stamps=True, exp_lo=-2, exp_hi=4), "timed": st.booleans(), "mode": st.sampled_from(MODES),
         "unit": st.sampled_from(["mm", "cm", "m", "km"]), "markers": st.booleans(), "style": st.sampled_from(["-", "--", "o"]),
-        "scale": st.sampled_from([0.0, 0.1, 2.5]), "start": st.sampled_from(["none", "t0", "other"]),
+        "scale": st.sampled_from([0.0, 0.1, 2.5]), "start": st.sampled_from(["none", "t0", "other", "zero"]),
         "container": st.sampled_from(["single", "list", "dict"]), "use_axes": st.booleans(), "standstill": st.booleans(),
         "other_fig": st.sampled_from([False, False, True])}))
 
